@@ -55,6 +55,13 @@ COVER = {
     "reproc_drain": ["reproc_drain"], "sink_string": ["sink_string"], "reproc_sink_string": ["sink_string"],
     "reproc_run_ex": ["reproc_run_ex"], "reproc_run": ["reproc_run"], "now": ["now"],
 }
+# process.windows.c: the string-building functions (C18) and the three process functions (C01, C07)
+COVER_WIN = {
+    "argument_should_escape": ["win_argument_quoting"], "argument_escaped_size": ["win_argument_quoting"],
+    "argument_escape": ["win_argument_quoting"], "argv_join": ["win_argv_join"],
+    "env_join_size": ["win_env_block"], "env_join": ["win_env_block"],
+    "process_wait": ["win_process_wait"], "process_terminate": ["win_process_terminate"], "process_kill": ["win_process_kill"],
+}
 FILES = ["reproc.c", "process.posix.c", "pipe.posix.c", "handle.posix.c", "redirect.c", "redirect.posix.c",
          "options.c", "strv.c", "drain.c", "run.c", "clock.posix.c"]
 
@@ -88,10 +95,11 @@ def candidates(file):
     lines = open(os.path.join(SRC, file)).read().split("\n")
     where = functions(lines)
     out = []
+    cover = COVER_WIN if file.endswith(".windows.c") else COVER
     for i, l in enumerate(lines):
         fn = where[i]
         s = l.strip()
-        if fn is None or fn not in COVER or not s or s.startswith(("//", "/*", "*", "#")) or "REPROC_VERIF" in l:
+        if fn is None or fn not in cover or not s or s.startswith(("//", "/*", "*", "#")) or "REPROC_VERIF" in l:
             continue
         if s.startswith("ASSERT(") or s.startswith("ASSERT_UNUSED("):
             continue  # compiled out (-DNDEBUG)
@@ -150,7 +158,7 @@ def run_one(m, idx, timeout):
         open(p, "w").write("\n".join(lines))
         env = dict(os.environ, VERIF_REPO=top, VERIF_BUILD_SUFFIX=".mut%d" % idx, VERIF_TIMEOUT=str(timeout), VERIF_JOBS="2")
         refuted, noverdict = [], []
-        for h in COVER[m["fn"]]:
+        for h in (COVER_WIN if m["file"].endswith(".windows.c") else COVER)[m["fn"]]:
             r = subprocess.run([os.path.join(VERIF, "verif"), "harness", h, "--brief"], capture_output=True, text=True, env=env)
             for l in r.stdout.splitlines():
                 t = l.strip()
